@@ -207,6 +207,8 @@ func baseConfig(rng *simcore.RNG, env *simcore.Env) simcore.Op {
 	c["crash_rate"] = []int{1, 2, 4}[rng.Intn(3)]
 	c["wal_garbage"] = rng.Bool(0.4)
 	c["early_crash"] = rng.Bool(0.25)
+	c["torn_initial"] = rng.Bool(0.15)
+	c["torn_initial_k"] = rng.Intn(64)
 	// operators leave statesync.enable = true in the config of a node that has long had state:
 	// it must be ignored there (restarts only, see node.go)
 	c["stale_statesync"] = rng.Bool(0.3)
